@@ -208,16 +208,20 @@ func (m *Models) Reach(fn *ssa.Function) map[*ssa.Function]bool {
 			continue
 		}
 		r[f] = true
-		n := m.p.CG.Nodes[f]
-		if n == nil {
-			continue
-		}
-		for _, e := range n.Out {
-			if _, isGo := e.Site.(*ssa.Go); isGo {
+		// call sites resolved by Prog.Callees: static callee or the VTA set, with the calls that higher-order helpers make
+		// through their function-valued parameter attributed to the helpers' call sites (load.go, liftHigherOrder)
+		for _, in := range instrsOf(f) {
+			ci, ok := in.(ssa.CallInstruction)
+			if !ok {
+				continue
+			}
+			if _, isGo := in.(*ssa.Go); isGo {
 				continue // a new goroutine is a root of its own
 			}
-			if !r[e.Callee.Func] && m.p.InPkg(e.Callee.Func) {
-				stack = append(stack, e.Callee.Func)
+			for _, g := range m.p.Callees(ci) {
+				if !r[g] && m.p.InPkg(g) {
+					stack = append(stack, g)
+				}
 			}
 		}
 	}
